@@ -561,15 +561,26 @@ def conj_flag(prog, f, its, root):
                                 if ap:
                                     deps.add(ap[0])
                     tgt_local = op_local(comp)
+                    and_shape = True
+                    from facts import const_val as _cv
                     for b, t in g.switches():
                         ap = it.acc_path(t["discr"])
                         if not ap:
                             continue
+                        false_t = an.edge_target(t, 0)
                         for sb in g.succ.get(b, []):
                             for bb2 in an.arm_region(g, b, sb):
                                 for st in g.stmts(bb2):
                                     if st["k"] == "assign" and P(st["place"]) == (tgt_local, ()):
                                         deps.add(ap[0])
+                                        # `acc && cmp`: once the flag is false it stays false (the false arm stores false, no arm stores
+                                        # true); `acc || cmp` stores true on the true arm and is no conjunction
+                                        if ap[0] == k and st["rv"]["k"] == "use":
+                                            v_ = _cv(st["rv"]["op"])
+                                            if v_ is True or (sb == false_t and v_ is not False):
+                                                and_shape = False
+                                        elif ap[0] == k and sb == false_t:
+                                            and_shape = False
                     # init component
                     init = None
                     il = op_local(it.term["args"][1])
@@ -577,7 +588,7 @@ def conj_flag(prog, f, its, root):
                     if idf and idf[0] == "assign" and idf[3]["k"] == "aggregate" and k < len(idf[3]["ops"]):
                         from facts import const_val
                         init = const_val(idf[3]["ops"][k])
-                    return {"form": "fold", "it": it, "init": init, "cmps": cmps, "own": deps == {k}, "calls": other, "where": g.loc()}
+                    return {"form": "fold", "it": it, "init": init, "cmps": cmps, "own": deps == {k} and and_shape, "calls": other, "where": g.loc()}
         return None
     # ---- loop ----
     ds = f.defs.get(root, [])
@@ -636,7 +647,10 @@ def conj_flag(prog, f, its, root):
                         reg = an.arm_region(f, b, sb)
                         if any(db in reg for db in def_blocks):
                             deps.add(r2)
-            return {"form": "loop", "it": it, "init": init, "cmps": cmps, "own": deps == {root}, "calls": calls, "where": it.loc()}
+            # a conjunction never sets the flag: no store of `true` inside the loop (`flag = flag || cmp` would)
+            sets_true = any(x[0] == "assign" and x[3]["k"] == "use" and const_val(x[3]["op"]) is True for x in ins)
+            or_op = any(x[0] == "assign" and x[3]["k"] == "binop" and x[3]["op"] == "BitOr" for x in ins)
+            return {"form": "loop", "it": it, "init": init, "cmps": cmps, "own": deps == {root} and not sets_true and not or_op, "calls": calls, "where": it.loc()}
     return None
 
 
